@@ -44,6 +44,26 @@ def seed_payload(preset, repo, path):
     return common
 
 
+def alt_payload(preset, payload):
+    """a second event shape of the same preset (the other hook the integration fires), or None"""
+    p = copy.deepcopy(payload)
+    if preset == "github-copilot":
+        # VS Code native hooks
+        p["hook_event_name"] = "PostToolUse"
+        p["tool_name"] = "copilot_insertEdit"
+        return p
+    if preset == "claude":
+        p["hook_event_name"] = "PreToolUse"
+        return p
+    if preset == "cursor":
+        p["hook_event_name"] = "beforeSubmitPrompt"
+        return p
+    if preset == "ai_tab":
+        p["hook_event_name"] = "before_edit"
+        return p
+    return None
+
+
 def mutations(rng, payload, world_paths):
     """(label, payload-as-string) variants: deletions, type flips, oversize, foreign paths"""
     out = []
@@ -145,6 +165,9 @@ class C20(Prop):
         os.makedirs(bare)
         w.raw_git(bare, "init", "-q", "--bare")
         lay["bare"] = bare
+        w.write(r0, "\u00fcbersicht.md", "L8 uml\n")
+        w.write(r0, "\u65e5\u672c/x.txt", "L9 cjk\n")
+        w.write(r0, "\U0001f600.txt", "L12 emoji\n")
         norepo = os.path.join(w.root, "plain")
         os.makedirs(norepo)
         w.write(norepo, "loose.txt", "L7 loose\n")
@@ -158,7 +181,10 @@ class C20(Prop):
                 ("nested_repo", os.path.join(lay["inner"], "in.txt")), ("sibling_repo", os.path.join(lay["p2"], "f.txt")),
                 ("bare", os.path.join(lay["bare"], "HEAD")), ("nowhere", "/nonexistent/dir/x.txt"), ("dir", r0),
                 ("git_internal", os.path.join(r0, ".git", "config")), ("root", "/"), ("empty", ""),
-                ("subdir_rel", "src/b.txt"), ("weird", os.path.join(r0, "a.txt\n../../x"))]
+                ("subdir_rel", "src/b.txt"), ("weird", os.path.join(r0, "a.txt\n../../x")),
+                # names whose first character is multi-byte (relative and absolute)
+                ("rel_multibyte", "\u00fcbersicht.md"), ("rel_cjk", "\u65e5\u672c/x.txt"),
+                ("abs_multibyte", os.path.join(r0, "\u00fcbersicht.md")), ("rel_emoji", "\U0001f600.txt")]
 
     # ------------------------------------------------------------------ delivery + oracle
     def deliver(self, ex, preset, payload, form, cwd):
@@ -214,6 +240,37 @@ class C20(Prop):
                             return {"class": "attribution_recorded_in_bare_repository", "detail": {"path": cp}}
         return None
 
+    def recorded_counts(self, lay, files):
+        """per named file: number of non-human working-log entries for it in the repository that contains it"""
+        roots = sorted((lay[k] for k in ("r0", "inner", "p1", "p2")), key=len, reverse=True)
+        out = {}
+        for fp in files:
+            owner = next(r for r in roots if fp.startswith(r + os.sep))
+            rel = os.path.relpath(fp, owner)
+            base = os.path.join(owner, ".git", "ai", "working_logs")
+            n = 0
+            if os.path.isdir(base):
+                for d in sorted(os.listdir(base)):
+                    cp = os.path.join(base, d, "checkpoints.jsonl")
+                    if os.path.isfile(cp):
+                        with open(cp) as f:
+                            for x in f.read().splitlines():
+                                if x.strip():
+                                    j = json.loads(x)
+                                    if j.get("kind") != "Human":
+                                        n += sum(1 for e in j.get("entries", []) if e.get("file") == rel)
+            out[fp] = n
+        return out
+
+    def expect_recorded(self, ex, lay, files, ctx, res, before):
+        """every named (and just modified) file got a new AI entry in the repository that contains it"""
+        after = self.recorded_counts(lay, files)
+        for fp in files:
+            if after[fp] <= before.get(fp, 0):
+                return {"monitor": "hook.state", "class": "file_not_recorded_in_the_repository_that_contains_it",
+                        "detail": dict(ctx, file=fp.replace(ex.w.root, "{ROOT}"), err=res.err[-300:])}
+        return None
+
     def judge(self, ex, res, lay, ctx):
         if res.hang:
             return {"monitor": "hook.delivery", "class": "hang", "detail": ctx}
@@ -243,7 +300,7 @@ class C20(Prop):
         seed_s = json.dumps(seed)
         deliveries = []
         cwds = {"r0": r0, "subdir": os.path.join(r0, "src"), "nested": lay["inner"], "workspace": lay["ws"],
-                "bare": lay["bare"], "norepo": lay["norepo"]}
+                "bare": lay["bare"], "norepo": lay["norepo"], "root": w.root}
         if family == "truncate":
             step = 3 if tier == "quick" else 1
             for n in range(0, len(seed_s) + 1, step):
@@ -253,6 +310,9 @@ class C20(Prop):
             deliveries.append(("dup", seed_s, "argv", "r0"))
         elif family == "mutate":
             muts = mutations(rng, seed, [])
+            alt = alt_payload(preset, seed)
+            if alt is not None:
+                muts += [("alt:" + l, x) for l, x in mutations(rng, alt, [])] + [("alt:full", json.dumps(alt))]
             if tier == "quick":
                 muts = rng.sample(muts, min(len(muts), 90))
             for label, s in muts:
@@ -262,9 +322,27 @@ class C20(Prop):
                 ex.probe("layout." + cwd_name)
                 base_repo = {"nested": lay["inner"], "workspace": lay["p1"]}.get(cwd_name, r0)
                 sp = seed_payload(preset, base_repo if cwd_name in ("nested", "workspace") else r0, "a.txt")
-                for label, s in mutations(rng, sp, self.world_paths(lay)):
-                    if label.startswith("path:"):
-                        deliveries.append((label, s, rng.choice(["argv", "stdin"]), cwd_name))
+                for variant, spv in (("", sp), ("alt:", alt_payload(preset, sp))):
+                    if spv is None:
+                        continue
+                    for label, s in mutations(rng, spv, self.world_paths(lay)):
+                        if label.startswith("path:"):
+                            deliveries.append((variant + label, s, rng.choice(["argv", "stdin"]), cwd_name))
+            if preset == "agent-v1":
+                # one report naming files of SEVERAL repositories, started where no repository is: each file must be
+                # recorded in the repository that contains it (outer/nested in both orders, siblings in both orders)
+                groups = {"outer_inner": [os.path.join(r0, "a.txt"), os.path.join(lay["inner"], "in.txt")],
+                          "inner_outer": [os.path.join(lay["inner"], "in.txt"), os.path.join(r0, "src", "b.txt")],
+                          "siblings": [os.path.join(lay["p1"], "f.txt"), os.path.join(lay["p2"], "f.txt")],
+                          "siblings_rev": [os.path.join(lay["p2"], "f.txt"), os.path.join(lay["p1"], "f.txt")],
+                          "three": [os.path.join(r0, "a.txt"), os.path.join(lay["inner"], "in.txt"), os.path.join(lay["p1"], "f.txt")]}
+                for gname in sorted(groups):
+                    # the workspace root the agent names is a plain directory that CONTAINS the repositories
+                    # (the directory the hook is started in bounds the search for repositories)
+                    rwd, cwd_name = (lay["ws"], "workspace") if gname.startswith("siblings") else (w.root, "root")
+                    pm = dict(seed_payload(preset, rwd, "x"), edited_filepaths=groups[gname])
+                    for form in ("argv", "stdin"):
+                        deliveries.append(("multi:" + gname, json.dumps(pm), form, cwd_name))
         evals = 0
         viol = None
         distinct = set()
@@ -276,10 +354,20 @@ class C20(Prop):
                 sib = os.path.join(lay["p2"], "f.txt")
                 with open(sib, "a") as f:
                     f.write("L%d sibling ai line\n" % ex.fresh_id())
+            multi = None
+            if label.startswith("multi:"):
+                multi = json.loads(payload)["edited_filepaths"]
+                for fp in multi:
+                    with open(fp, "a") as f:
+                        f.write("L%d multi ai line\n" % ex.fresh_id())
+                before = self.recorded_counts(lay, multi)
             res = self.deliver(ex, preset, payload, form, cwds[cwd_name])
             ex.probe("delivery." + form)
             ctx = {"preset": preset, "label": label, "form": form, "cwd": cwd_name}
             viol = self.judge(ex, res, lay, ctx)
+            if not viol and multi:
+                ex.probe("multi.expected")
+                viol = self.expect_recorded(ex, lay, multi, ctx, res, before)
             if not viol and expect_sibling:
                 ex.probe("sibling.expected")
                 found = False
@@ -325,9 +413,18 @@ class C20(Prop):
         viol = None
         if d:
             cwds = {"r0": r0, "subdir": os.path.join(r0, "src"), "nested": lay["inner"], "workspace": lay["ws"],
-                    "bare": lay["bare"], "norepo": lay["norepo"]}
-            res = self.deliver(ex, d["preset"], d["payload"].replace("{ROOT}", ex.w.root), d["form"], cwds[d["cwd"]])
-            viol = self.judge(ex, res, lay, {"preset": d["preset"], "label": d["label"], "form": d["form"], "cwd": d["cwd"]})
+                    "bare": lay["bare"], "norepo": lay["norepo"], "root": ex.w.root}
+            payload = d["payload"].replace("{ROOT}", ex.w.root)
+            multi = json.loads(payload)["edited_filepaths"] if d["label"].startswith("multi:") else None
+            for fp in multi or []:
+                with open(fp, "a") as f:
+                    f.write("L%d multi ai line\n" % ex.fresh_id())
+            before = self.recorded_counts(lay, multi or [])
+            res = self.deliver(ex, d["preset"], payload, d["form"], cwds[d["cwd"]])
+            ctx = {"preset": d["preset"], "label": d["label"], "form": d["form"], "cwd": d["cwd"]}
+            viol = self.judge(ex, res, lay, ctx)
+            if not viol and multi:
+                viol = self.expect_recorded(ex, lay, multi, ctx, res, before)
             if viol:
                 viol["step"] = 0
         r = Prop._result(self, ex, trace, viol)
